@@ -5,6 +5,21 @@ ROOT = os.path.dirname(os.path.dirname(os.path.abspath(__file__)))
 IDS = ["C%02d" % i for i in range(1, 21)]
 
 CHECKS = {
+    "C03": dict(
+        technique="TLA+ elision matcher (BodyOps.tla / Trace_Body.tla) run by TLC over recorded operator streams; design model Body.tla model-checked over all valid control strings",
+        text="Body.tla models the validator fragment, walrus's control-stack parser (unreachable flags, if/else state) and its emitter, and TLC checks EmittedMatches/EmittedBalanced over every valid control string up to the bound; every such string is concretised and run through the real code together with an exhaustive operator sweep (every operator of the feature set x boundary immediates, in live and in dead position, operand types discovered by probing the validator), fixtures, generated modules and a real-world module; the matcher state machine must align each input function with its output function (same opcode, bit-identical immediates, resolved block signature, sigma-mapped entity operands, injective type-preserving local map, equal branch depths).",
+        note="Trusted: wasmparser 0.214 operator decoding, TLC. Drop is enabled only for nop and syntactically dead operators; Keep is always allowed, so a walrus that elides less is not flagged. Bound: control strings of length <= 6 (quick) / 7 (thorough); generated bodies are samples.",
+        design_ref="DESIGN.md §5 C03"),
+    "C06": dict(
+        technique="TLA+ declarative reachability (ModuleGraph.tla Reach/Iso) evaluated by TLC on recorded parse;gc;emit runs; GC worklist model Walrus.tla model-checked (GcExact)",
+        text="Walrus.tla mirrors the worklist of passes/used.rs and the sweep of passes/gc.rs; TLC checks NoPanic, OutputIsIso and GcExact (kept = Reach, residue at most one memory) over all modules of the families; the families are concretised and, with fixtures, a real-world module and generated modules (a third with extra roots from a typed custom section), run through the real pass; TLC recomputes Reach as a least fixed point over the surviving operators and requires validity, Iso on the kept part, equal exports and no reachable entity dropped.",
+        note="Trusted: wasmparser 0.214 (decoder + validator), TLC. Behavioural equality is derived from the structural relation (Iso of the reachable sub-module), not executed here (see C01). One known finding (see known_findings.json).",
+        design_ref="DESIGN.md §5 C06"),
+    "C07": dict(
+        technique="TLA+ reachability recomputed on the emitted module by TLC (Trace_GC.tla), second-run stuttering; design invariants GcExact / SecondGcIsNoOp on Walrus.tla",
+        text="On every recorded parse;gc;emit run TLC recomputes Reach on the *output* abstract module and requires that it covers every emitted import, function, table, memory, global and segment (tolerated residue: one memory when a data segment is emitted), that every emitted type is used, and that parse;gc;gc;emit produces the same bytes; the design model proves the same for the worklist algorithm on all family modules.",
+        note="Trusted: wasmparser 0.214, TLC. Bounded by the families and by sampling of generated modules.",
+        design_ref="DESIGN.md §5 C07"),
     "C04": dict(
         technique="TLA+ relation Iso(in,out,sigma) (ModuleGraph.tla) model-checked on the Walrus.tla pipeline model and evaluated by TLC on recorded round trips (trace validation)",
         text="Walrus.tla (parse/emit pipeline) is model-checked exhaustively over the four input families of Families.tla with invariants OutputIsIso and NothingDroppedWithoutPass; the same families are concretised to wasm and, together with all valid fixtures and generated modules (full, stable-only and MVP feature profiles), round-tripped through the real code; TLC evaluates Iso on every recorded (in, out, sigma) triple.",
